@@ -26,7 +26,11 @@ CORPUS = [
     # kernels of 50 and more lines take the multi-process search: two of them (and one twice) in one process
     ("x86", "zen2", [], ["addq $1, %%r%d" % (8 + i % 8) for i in range(52)] + ["addq %r8, %r9"]),
     ("aarch64", "tx2", [], ["add x%d, x%d, #1" % (1 + i % 20, 1 + i % 20) for i in range(55)]),
+    # no --arch: the micro-architecture is chosen from the ISA detected in the file (default model + the note about it in the report)
+    ("x86", None, [], ["vaddpd (%rax,%rcx,8), %ymm0, %ymm1", "addq $8, %rcx", "cmpq %rcx, %rbx", "jne .L1"]),
+    ("aarch64", None, [], ["ldr d0, [x1, #16]", "fadd d1, d0, d1", "subs x3, x3, #1", "b.ne .L1"]),
 ]
+ARGV = lambda arch, opts: (["--arch", arch] if arch else []) + opts
 DRIVER = r'''
 import io, sys
 import osaca.osaca as O
@@ -74,7 +78,7 @@ for i, (isa, arch, opts, lines) in enumerate(CORPUS):
     path = os.path.join(tmp, f"k{i}.s")
     open(path, "w").write("\n".join(lines) + "\n")
     files[i] = path
-    ref[i] = fresh(path, ["--arch", arch] + opts)
+    ref[i] = fresh(path, ARGV(arch, opts))
     if ref[i].startswith("FRESH-PROCESS-FAILED"):
         R.fail("C18/history/fresh-crash", f"C18:fresh-crash:{i}", f"corpus item {i} ({arch} {opts}) crashes in a fresh process: {ref[i][-300:]}")
 model_snaps = {}
@@ -88,12 +92,15 @@ for h in range(n_hist):
         history[pos] = item
     if h == 0:
         history = [0, 1, 0, 1, 3, 3, 6, 7, 6, 2, 5, 1, 8, 9][:n_steps]  # read-modify-write first, then the pure load; repeats
+    # every history analyses each file without --arch twice (what is reported the first time is reported every time)
+    noarch = [i for i, c in enumerate(CORPUS) if c[1] is None]
+    history = history + noarch + noarch[::-1]
     for step, ci in enumerate(history):
         isa, arch, opts, lines = CORPUS[ci]
         desc = dict(history=history[: step + 1], step=step, arch=arch, options=opts, kernel=lines)
         R.case((h, step), sample=dict(history_no=h, step=step, item=ci, arch=arch, options=opts))
         try:
-            got = in_process(files[ci], ["--arch", arch] + opts)
+            got = in_process(files[ci], ARGV(arch, opts))
         except Exception as e:
             R.fail("C18/history/crash", f"C18:crash:{ci}", f"step {step} of history {history[: step + 1]}: inspect raised {e!r}", desc)
             continue
